@@ -370,6 +370,69 @@ func (s *fstate) contents(o Obj, cs map[Obj]ObjSet) ObjSet {
 	return r
 }
 
+// typeKind: a coarse kind of a pointer-like static type ("" when unknown or an interface).
+func typeKind(t types.Type) string {
+	switch t.Underlying().(type) {
+	case *types.Pointer:
+		return "ptr"
+	case *types.Slice:
+		return "slice"
+	case *types.Map:
+		return "map"
+	case *types.Chan:
+		return "chan"
+	case *types.Signature:
+		return "func"
+	}
+	return ""
+}
+
+// typeFilter drops from a loaded points-to set the parameter objects whose
+// own static type cannot be the type of the loaded value.
+func (s *fstate) typeFilter(set ObjSet, loadType types.Type) ObjSet {
+	lk := typeKind(loadType)
+	if lk == "" { // interface, struct with pointers, …: no filtering
+		return set
+	}
+	// a type assertion to a type of this kind could have turned an interface
+	// parameter into such a value: then nothing is filtered
+	for _, blk := range s.fn.Blocks {
+		for _, in := range blk.Instrs {
+			if ta, ok := in.(*ssa.TypeAssert); ok && typeKind(ta.AssertedType) == lk {
+				return set
+			}
+			if ct, ok := in.(*ssa.ChangeInterface); ok {
+				_ = ct
+			}
+		}
+	}
+	var out ObjSet
+	for o := range set {
+		drop := false
+		if o.K == KParam && !o.Deep && o.Idx < len(s.fn.Params) {
+			pt := s.fn.Params[o.Idx].Type()
+			if _, isIface := pt.Underlying().(*types.Interface); isIface {
+				drop = true // an interface value is never the result of a non-interface load
+			} else if pk := typeKind(pt); pk != "" && pk != lk {
+				drop = true
+			}
+		}
+		if drop {
+			if out == nil {
+				out = ObjSet{}
+				for o2 := range set {
+					out[o2] = struct{}{}
+				}
+			}
+			delete(out, o)
+		}
+	}
+	if out == nil {
+		return set
+	}
+	return out
+}
+
 func (s *fstate) contentsSet(set ObjSet, cs map[Obj]ObjSet) ObjSet {
 	r := ObjSet{}
 	for o := range set {
@@ -685,7 +748,10 @@ func (s *fstate) transfer(in ssa.Instruction, cs map[Obj]ObjSet) {
 	case *ssa.UnOp:
 		if in.Op == token.MUL {
 			if ptrLike(in.Type()) {
-				s.setP(in, s.contentsSet(s.P(in.X), cs))
+				// contents are kept per object, not per field: a loaded value cannot be an
+				// object whose static type is of a different kind than the load's type
+				// (a [][]int field of a struct that also holds an interface parameter)
+				s.setP(in, s.typeFilter(s.contentsSet(s.P(in.X), cs), in.Type()))
 			}
 		} else if in.Op == token.ARROW {
 			s.problem("channel receive at " + s.where(in))
